@@ -7,7 +7,7 @@ TEXT = {
     "C01": "full proof of the tiling statement on the model for every input (C01_tiling: ordered, disjoint root ranges inside the input, gaps and rest blank, Source = range with NUL replaced, StartLine by line endings, lengths) and for the streaming entry point (parseStream_eq_small); the memory clauses (aliasing, buffer untouched) are observed on the implementation by the oracle; tie: root-block headers through both entry points",
     "C02": "partial proof: block spans valid, nested, ordered for every input (parseFull_block_spans); inline spans valid, nested, ordered for every leaf meeting the executable entry conditions (parseInlines_spans, rewrite_roots_inline_spans), which the run evaluates on the implementation's pre-inline trees; that the block layer always meets them, and character boundaries, decided by span-structure correspondence (model vs Parse) plus the span oracle",
     "C03": "partial proof: at the block layer no textual byte is lost or duplicated, for every input (no_duplication, no_loss); after the inline pass no byte is covered twice (C03_no_dup_partial, under the executable entry condition evaluated on the implementation's trees); coverage through the inline parser decided by leaf-span correspondence plus the coverage oracle",
-    "C04": "partial proof: the block layer is total for every input (parseBlocks_total: no panic site, no fuel exhaustion), Walk and readline terminate with stated fuel, renderer/formatter models are total; remaining fuel sufficiency observed on the model (no fuel code on any case) and the implementation run under recover + watchdog in all 30 configurations",
+    "C04": "full proof on the model that the whole parse is total for every input: the block layer reaches no panic site and exhausts no fuel (parseBlocks_total), the inline parser exhausts none of its fuels (parseFull_fuel_adequate, parseFull_total); Walk and readline terminate with stated fuel, renderer/formatter models are total; the implementation is run under recover + watchdog in all 30 configurations on hostile inputs; tie: model/implementation correspondence",
     "C05": "full proof on the model of the node grammar for every input: block level (parseFull_gramBlocks), inline level incl. no link in a link and title-follows-destination (ComposeGram.parseFull_gramI), canContain closure, entry kinds, reference closure, item-number range; accessor agreement decided by kind/accessor correspondence through both entry points plus the grammar oracle",
     "C06": "partial proof: whole-pipeline statement proved on four slices for inputs of any length (escaped text, verbatim fenced code, emphasis nests = the spec's delimiter procedure, a shortcut reference against one definition); for general documents: denotation oracle on serialised abstract documents (lib/docgen.py) plus model/implementation HTML correspondence",
     "C07": "full proof on the model: C07_final (for every input, every reference matcher, every configuration without tag filter, rendered HTML is in the safe grammar); C07_render_safeW holds for every tree whose leaves satisfy bokW and the run evaluates bokW on the implementation's own trees; tie: model renderer on the implementation's tree = implementation's bytes",
